@@ -477,6 +477,11 @@ def bisect_rule(ctx: Ctx, rule: str = "BISECT") -> int:
         return 1
     loop = next((s for s in fn.body if isinstance(s, ast.While)), None)
     coll, new = fi.params[0], fi.params[1]
+    if loop is not None and isinstance(loop.test, ast.UnaryOp) and isinstance(loop.test.op, ast.Not) and isinstance(loop.test.operand, ast.Compare) \
+            and isinstance(loop.test.operand.left, ast.Name) and isinstance(loop.test.operand.comparators[0], ast.Name):
+        ctx.violation(rule, f"{q}: the search continues while `low < high`", function=q, construct="bisection loop test is not `low < high`",
+                      message=f"`{short(loop.test)}`: the loop does not run while the interval is non-empty -- the message is inserted at position 0", file=fi.file, node=loop)
+        return 1
     if loop is None or not (isinstance(loop.test, ast.Compare) and len(loop.test.ops) == 1 and isinstance(loop.test.left, ast.Name)
                             and isinstance(loop.test.comparators[0], ast.Name)):
         ctx.undetermined(rule, f"{q}: bisection loop", "no `while lo < hi` loop over two bounds: idiom not recognised, not judged")
@@ -1059,4 +1064,140 @@ def undefined_name_rule(ctx: Ctx, functions, rule: str = "UNDEF") -> int:
     ctx.check(not bad, rule, f"every name read resolves to a definition ({n} functions inspected)", function=bad[0][0].qualname if bad else "*",
               construct=bad[0][2] if bad else "ok", message="the read raises NameError / UnboundLocalError whenever that path is executed" if bad else "",
               file=bad[0][0].file if bad else next(iter(p.sources)), node=bad[0][1] if bad else None)
+    return n
+
+
+REBIND_ALLOWED = {("Key.transpose_key", "key"): "enharmonic spelling mapped to the key the tables are written for (decided by C20's table rules)"}
+_BENIGN_CONVERSIONS = {"list", "tuple", "sorted", "set", "dict", "str", "Path", "copy", "deepcopy"}
+
+
+def param_rebind_rule(ctx: Ctx, functions, rule: str = "REBIND") -> int:
+    """A function works with the arguments it was given: a parameter is rebound only to install a default when it is None (the one
+    idiom the library uses) or by a container conversion of itself (`x = list(x)`).  Anything else -- clamping, rounding, replacing --
+    silently changes what every later statement (and every rule that reads `the parameter`) means; `channel = minmax(0, 15, channel)`
+    in set_channel folds all tracks from 16 up into channel 15."""
+    from ..astutil import path_conditions
+    p = ctx.p
+    n = 0
+    bad = []
+    for q in sorted(functions):
+        fi = p.functions.get(q)
+        if fi is None or "plot" in q:
+            continue
+        a = fi.node.args
+        params = {x.arg for x in a.posonlyargs + a.args + a.kwonlyargs} - {"self", "cls"}
+        for st in walk_local(fi.node):
+            tg = st.targets if isinstance(st, ast.Assign) else [st.target] if isinstance(st, (ast.AugAssign, ast.AnnAssign)) else []
+            for t in tg:
+                for x in ast.walk(t):
+                    if not (isinstance(x, ast.Name) and isinstance(x.ctx, ast.Store) and x.id in params):
+                        continue
+                    n += 1
+                    if (q, x.id) in REBIND_ALLOWED:
+                        continue
+                    pcs = path_conditions(st)
+                    default_fill = isinstance(st, ast.Assign) and any(
+                        holds and isinstance(c, ast.Compare) and len(c.ops) == 1 and isinstance(c.ops[0], (ast.Is, ast.Eq)) and isinstance(c.left, ast.Name)
+                        and c.left.id == x.id and isinstance(c.comparators[0], ast.Constant) and c.comparators[0].value is None for c, holds in pcs)
+                    v = getattr(st, "value", None)
+                    conversion = isinstance(st, ast.Assign) and isinstance(v, ast.Call) and (getattr(v.func, "id", None) or getattr(v.func, "attr", None)) in _BENIGN_CONVERSIONS \
+                        and len(v.args) >= 1 and isinstance(v.args[0], ast.Name) and v.args[0].id == x.id
+                    if not (default_fill or conversion):
+                        bad.append((fi, st, x.id))
+    ctx.check(not bad, rule, f"parameters are rebound only to install a default for None ({n} rebinding(s) inspected)", function=bad[0][0].qualname if bad else "*",
+              construct=f"parameter `{bad[0][2]}` of {bad[0][0].qualname} is replaced by a value computed from it" if bad else "ok",
+              message=f"`{short(bad[0][1], 80)}`: from here on the function works with something other than the argument it was given" if bad else "",
+              file=bad[0][0].file if bad else next(iter(p.sources)), node=bad[0][1] if bad else None)
+    return n
+
+
+def identity_rule(ctx: Ctx, functions, rule: str = "IDENT") -> int:
+    """Numbers are compared by value: `is` / `is not` between two expressions of which one is a numeric message field or a local
+    computed by arithmetic is an identity test on int objects -- CPython shares small ints only (-5..256), so the test answers
+    `different` for equal values above that (a note longer than 256 ticks never equals itself)."""
+    p = ctx.p
+    n = 0
+    bad = []
+    for q in sorted(functions):
+        fi = p.functions.get(q)
+        if fi is None:
+            continue
+        arith = {a.targets[0].id for a in ast.walk(fi.node) if isinstance(a, ast.Assign) and len(a.targets) == 1 and isinstance(a.targets[0], ast.Name)
+                 and isinstance(a.value, (ast.BinOp,)) and isinstance(a.value.op, (ast.Add, ast.Sub, ast.Mult, ast.Div, ast.FloorDiv, ast.Mod))}
+
+        def numeric(e):
+            if isinstance(e, ast.Attribute) and e.attr in NUMERIC_FIELDS:
+                return True
+            if isinstance(e, ast.Name) and e.id in arith:
+                return True
+            if isinstance(e, ast.BinOp):
+                return True
+            return isinstance(e, ast.Constant) and isinstance(e.value, (int, float)) and not isinstance(e.value, bool)
+        for c in ast.walk(fi.node):
+            if isinstance(c, ast.Compare) and len(c.ops) == 1 and isinstance(c.ops[0], (ast.Is, ast.IsNot)):
+                n += 1
+                l, r = c.left, c.comparators[0]
+                if any(isinstance(x, ast.Constant) and x.value is None for x in (l, r)):
+                    continue
+                if numeric(l) or numeric(r):
+                    bad.append((fi, c))
+    ctx.check(not bad, rule, f"no identity test between numbers ({n} `is` / `is not` comparisons inspected)", function=bad[0][0].qualname if bad else "*",
+              construct="two numbers are compared with `is` / `is not`" if bad else "ok",
+              message=f"`{short(bad[0][1], 70)}`: int objects above 256 are distinct objects even when equal, so the test reports a difference that is not there" if bad else "",
+              file=bad[0][0].file if bad else next(iter(p.sources)), node=bad[0][1] if bad else None)
+    return n
+
+
+def default_channel_rule(ctx: Ctx, functions, rule: str = "DEFCHAN") -> int:
+    """Messages an operation creates itself (consolidated waits, padding, the end marker of the absolute view, the default
+    signature) carry the sequence's channel: the local handed to `Message(channel=...)` starts as None and takes the channel of
+    the first message that has one -- `if <local> is None and msg.channel is not None: <local> = msg.channel`.  With the guard
+    inverted the local stays None, the created message falls back to channel 0, and a sequence on channel 7 is no longer
+    channel-consistent after a conversion."""
+    from ..astutil import path_conditions
+    p = ctx.p
+    n = 0
+    for q in sorted(functions):
+        fi = p.functions.get(q)
+        if fi is None:
+            continue
+        # the role: a name passed as channel= to a Message(...) that is also assigned `<x>.channel` somewhere in the function
+        passed = {k.value.id for c in ast.walk(fi.node) if isinstance(c, ast.Call) and isinstance(c.func, ast.Name) and c.func.id == "Message"
+                  for k in c.keywords if k.arg == "channel" and isinstance(k.value, ast.Name)}
+        for var in sorted(passed):
+            stores = [a for a in walk_local(fi.node) if isinstance(a, ast.Assign) and any(isinstance(t, ast.Name) and t.id == var for t in a.targets)]
+            takes = [a for a in stores if isinstance(a.value, ast.Attribute) and a.value.attr == "channel" and isinstance(a.value.value, ast.Name)]
+            inits = [a for a in stores if isinstance(a.value, ast.Constant) and a.value.value is None]
+            if not takes:
+                continue
+            n += 1
+            ok = len(takes) == 1 and len(inits) >= 1 and len(stores) == len(takes) + len(inits)
+            why = f"stores {[short(a, 50) for a in stores]}"
+            if ok:
+                t = takes[0]
+                m = t.value.value.id
+                pcs = path_conditions(t, stop=next((a for a in ancestors(t) if isinstance(a, (ast.For, ast.While))), None))
+                leaves = []
+                for test, holds in pcs:
+                    vals = test.values if isinstance(test, ast.BoolOp) and isinstance(test.op, ast.And) and holds else [test]
+                    for v in vals:
+                        leaves.append((v, holds))
+                want_a = want_b = False
+                extra = []
+                for v, holds in leaves:
+                    if isinstance(v, ast.Compare) and len(v.ops) == 1 and isinstance(v.comparators[0], ast.Constant) and v.comparators[0].value is None:
+                        is_none = isinstance(v.ops[0], (ast.Is, ast.Eq)) == holds
+                        if isinstance(v.left, ast.Name) and v.left.id == var and is_none:
+                            want_a = True
+                            continue
+                        if src(v.left) == f"{m}.channel" and not is_none:
+                            want_b = True
+                            continue
+                    extra.append(short(v, 40))
+                ok = want_a and not extra
+                why = f"guard {[(short(t_, 50), h) for t_, h in pcs]}"
+            ctx.check(ok, rule, f"{q}: `{var}` (the channel of the messages created here) takes the channel of the first message that has one", function=q,
+                      construct=f"the channel given to created messages in {q} is not `the first channel seen`",
+                      message=f"{why}: the local stays None (created messages fall back to channel 0) or follows a later message", file=fi.file,
+                      node=takes[0] if takes else fi.node)
     return n
